@@ -146,16 +146,17 @@ Proof.
 Qed.
 
 Lemma put_file_changes : forall f p c g, put_file f p c = Ok g ->
-  exists q, res_nofollow f p = Ok q /\ changes_at q f g /\ is_dir (get f q) = false /\ get g q <> None.
+  exists q, res_nofollow f p = Ok q /\ changes_at q f g /\ is_dir (get f q) = false /\
+            get g q = Some (mk_inode (KFile c) 384).
 Proof.
   intros f p c g H. unfold put_file in H. destruct (res_nofollow f p) as [q|e] eqn:R; [|discriminate].
   destruct (is_nil q); [discriminate|].
   exists q. split; [reflexivity|].
   destruct (get f q) as [[k m mt]|] eqn:G.
   - destruct k; [discriminate| |]; inversion H; subst;
-      (split; [apply changes_set_touch|]; split; [reflexivity|]; rewrite get_set, path_eqb_refl; discriminate).
+      (split; [apply changes_set_touch|]; split; [reflexivity|]; rewrite get_set, path_eqb_refl; reflexivity).
   - inversion H; subst. split; [apply changes_set_touch|]. split; [reflexivity|].
-    rewrite get_set, path_eqb_refl. discriminate.
+    rewrite get_set, path_eqb_refl. reflexivity.
 Qed.
 
 Lemma remove_changes : forall f p g, remove f p = Ok g ->
@@ -643,6 +644,13 @@ Proof. intros f p H. eapply prefix_real_dir; [exact H|apply under_refl]. Qed.
 Lemma real_snoc : forall f p c, real f p -> normal c -> is_dir (get f (p ++ [c])) = true -> real f (p ++ [c]).
 Proof. intros f p c Hr Hn Hd. unfold real. apply real_from_snoc. cbn [app]. auto. Qed.
 
+Lemma lstat_lex : forall f p c i, real f p -> normal c -> lstat f (p ++ [c]) = Ok i -> get f (p ++ [c]) = Some i.
+Proof.
+  intros f p c i Hr Hn H. unfold lstat in H. destruct (res_nofollow f (p ++ [c])) as [q|x] eqn:Rq; [|discriminate].
+  apply res_nofollow_lex in Rq; [|assumption|assumption]. subst q.
+  destruct (get f (p ++ [c])); [inversion H; reflexivity|discriminate].
+Qed.
+
 Lemma output_path_ok : forall f elems cur L, real f cur -> Forall normal elems -> elems <> [] ->
   output_path f cur elems = Some L ->
   exists s c, L = (cur ++ s) ++ [c] /\ normal c /\ real f (cur ++ s).
@@ -652,15 +660,16 @@ Proof.
   destruct (negb (valid_component e)); [discriminate|].
   destruct rest as [|e2 rest'].
   - inversion H; subst. exists [], e. rewrite app_nil_r. auto.
-  - cbn iota in H. destruct (lstat f (cur ++ [e])) as [i|x] eqn:Ls; [|discriminate].
-    destruct (i_kind i) eqn:K; try discriminate.
-    unfold lstat in Ls. destruct (res_nofollow f (cur ++ [e])) as [q|x] eqn:Rq; [|discriminate].
-    apply res_nofollow_lex in Rq; [|assumption|assumption]. subst q.
-    destruct (get f (cur ++ [e])) as [j|] eqn:G; [|discriminate]. inversion Ls; subst j.
+  - cbn iota in H.
+    match type of H with context [lstat ?a ?b] => destruct (lstat a b) as [i|x] eqn:Ls; [|discriminate H] end.
+    destruct (i_kind i) eqn:K; try discriminate H.
+    assert (G : get f (cur ++ [e]) = Some i) by (apply lstat_lex; assumption).
     assert (Hr' : real f (cur ++ [e])).
     { apply real_snoc; try assumption. rewrite G. destruct i as [k m mt]. cbn in K. subst k. reflexivity. }
     destruct (IH (cur ++ [e]) L Hr' HF' ltac:(discriminate) H) as (s & c & EL & Hc & Hrs).
-    exists (e :: s), c. rewrite <- app_assoc in EL, Hrs. cbn [app] in EL, Hrs. auto.
+    exists (e :: s), c.
+    replace ((cur ++ [e]) ++ s) with (cur ++ e :: s) in * by (rewrite <- app_assoc; reflexivity).
+    split; [exact EL|]. split; [exact Hc|exact Hrs].
 Qed.
 
 (** ---------- MkdirAll / extractDir ---------- *)
@@ -681,7 +690,7 @@ Proof.
     + assert (Hrp : real f (rev rp)).
       { eapply prefix_real; [exact Hr|]. cbn [rev]. apply under_app. }
       destruct (mkdir_all_rev f rp m) as [f'|x'] eqn:Rec; [|discriminate].
-      apply IH in Rec; [|exact Hrp]. subst f'.
+      specialize (IH f' Hrp eq_refl). subst f'.
       destruct (mkdir f (rev (c :: rp)) m) as [f''|x''] eqn:Mk.
       * exfalso. apply mkdir_changes in Mk. destruct Mk as (q & Rq & _ & Gq & _).
         unfold res_nofollow in Rq. apply res_dir_lex in Rq; [|exact Hr]. subst q.
@@ -690,15 +699,24 @@ Proof.
         destruct k; inversion H; reflexivity.
 Qed.
 
-Lemma lstat_lex : forall f p c i, real f p -> normal c -> lstat f (p ++ [c]) = Ok i -> get f (p ++ [c]) = Some i.
-Proof.
-  intros f p c i Hr Hn H. unfold lstat in H. destruct (res_nofollow f (p ++ [c])) as [q|x] eqn:Rq; [|discriminate].
-  apply res_nofollow_lex in Rq; [|assumption|assumption]. subst q.
-  destruct (get f (p ++ [c])); [inversion H; reflexivity|discriminate].
-Qed.
-
 Lemma under_snoc_false : forall (p : path) c, under (p ++ [c]) p = false.
 Proof. intros. apply under_longer. rewrite app_length. cbn. lia. Qed.
+
+Lemma mkdir_all_ok : forall f p c m f1, real f p -> normal c -> mkdir_all f (p ++ [c]) m = Ok f1 ->
+  f1 = f \/ (changes_at (p ++ [c]) f f1 /\ get f (p ++ [c]) = None).
+Proof.
+  intros f p c m f1 Hr Hn Mk.
+  unfold mkdir_all in Mk. rewrite rev_app_distr in Mk. cbn [rev app] in Mk. cbn [mkdir_all_rev] in Mk.
+  replace (rev (c :: rev p)) with (p ++ [c]) in Mk by (cbn [rev]; rewrite rev_involutive; reflexivity).
+  destruct (stat f (p ++ [c])) as [i|x] eqn:St.
+  - destruct (i_kind i); inversion Mk; auto.
+  - destruct (mkdir_all_rev f (rev p) m) as [f'|x'] eqn:Rec; [|discriminate].
+    apply mkdir_all_real in Rec; [|rewrite rev_involutive; exact Hr]. subst f'.
+    destruct (mkdir f (p ++ [c]) m) as [f''|x''] eqn:Mk2.
+    + inversion Mk; subst f''. right. apply mkdir_changes in Mk2. destruct Mk2 as (q & Rq & Hc & Gq & _).
+      apply res_nofollow_lex in Rq; [|assumption|assumption]. subst q. auto.
+    + destruct (lstat f (p ++ [c])) as [[k mm mt]|]; [|discriminate]. destruct k; inversion Mk; auto.
+Qed.
 
 Lemma extract_dir_ok : forall f p c g, real f p -> normal c -> extract_dir f (p ++ [c]) = Ok g ->
   (g = f \/ (changes_at (p ++ [c]) f g /\ get f (p ++ [c]) = None)) /\
@@ -706,17 +724,7 @@ Lemma extract_dir_ok : forall f p c g, real f p -> normal c -> extract_dir f (p 
 Proof.
   intros f p c g Hr Hn H. unfold extract_dir in H.
   destruct (mkdir_all f (p ++ [c]) 493) as [f1|x] eqn:Mk; [|discriminate].
-  assert (Hcase : f1 = f \/ (changes_at (p ++ [c]) f f1 /\ get f (p ++ [c]) = None)).
-  { unfold mkdir_all in Mk. rewrite rev_app_distr in Mk. cbn [rev app] in Mk. cbn [mkdir_all_rev] in Mk.
-    replace (rev (c :: rev p)) with (p ++ [c]) in Mk by (cbn [rev]; rewrite rev_involutive; reflexivity).
-    destruct (stat f (p ++ [c])) as [i|x] eqn:St.
-    - destruct (i_kind i); inversion Mk; auto.
-    - destruct (mkdir_all_rev f (rev p) 493) as [f'|x'] eqn:Rec; [|discriminate].
-      apply mkdir_all_real in Rec; [|rewrite rev_involutive; exact Hr]. subst f'.
-      destruct (mkdir f (p ++ [c]) 493) as [f''|x''] eqn:Mk2.
-      + inversion Mk; subst f''. right. apply mkdir_changes in Mk2. destruct Mk2 as (q & Rq & Hc & Gq & _).
-        apply res_nofollow_lex in Rq; [|assumption|assumption]. subst q. auto.
-      + destruct (lstat f (p ++ [c])) as [[k mm mt]|]; [|discriminate]. destruct k; inversion Mk; auto. }
+  pose proof (mkdir_all_ok _ _ _ _ _ Hr Hn Mk) as Hcase.
   assert (Hr1 : real f1 p).
   { destruct Hcase as [E|[Hc _]]; [subst; exact Hr|].
     eapply real_from_changes; [exact Hc| |exact Hr]. cbn [app]. apply under_snoc_false. }
@@ -735,4 +743,382 @@ Proof.
   - inversion H; subst f1. right. apply remove_changes in Rm. destruct Rm as (q & Rq & Hc & Gq & Hch).
     apply res_nofollow_lex in Rq; [|assumption|assumption]. subst q. auto.
   - destruct x; inversion H; auto.
+Qed.
+
+(** ---------- extractFile / extractSymlink as traces of confined steps ---------- *)
+(** a file or symlink extraction at [L]: nothing; or an optional removal of [L], then
+    either nothing more (error) or a creation at [L] followed by metadata changes of [L] *)
+Definition trace (L : path) (f f' : fs) (er : bool) : Prop :=
+  (f' = f /\ er = true) \/
+  exists f1,
+    (f1 = f \/ (changes_at L f f1 /\ get f1 L = None /\
+                (is_dir (get f L) = true -> has_children f L = false))) /\
+    ((f' = f1 /\ er = true) \/
+     exists f2, changes_at L f1 f2 /\ is_dir (get f1 L) = false /\ get f2 L <> None /\ meta_only L f2 f').
+
+Lemma real_after_removal : forall f f1 p c,
+  real f p -> (f1 = f \/ (changes_at (p ++ [c]) f f1 /\ get f1 (p ++ [c]) = None /\
+                          (is_dir (get f (p ++ [c])) = true -> has_children f (p ++ [c]) = false))) ->
+  real f1 p.
+Proof.
+  intros f f1 p c Hr [E|[Hc _]]; [subst; exact Hr|].
+  eapply real_from_changes; [exact Hc| |exact Hr]. cbn [app]. apply under_snoc_false.
+Qed.
+
+Lemma extract_file_trace : forall f p c e f' er, real f p -> normal c ->
+  extract_file f (p ++ [c]) e = (f', er) -> trace (p ++ [c]) f f' er.
+Proof.
+  intros f p c e f' er Hr Hn H. unfold extract_file in H.
+  destruct (remove_if_exists f (p ++ [c])) as [f1|x] eqn:Rm; [|inversion H; left; auto].
+  apply remove_if_exists_ok in Rm; [|assumption|assumption]. right. exists f1. split; [exact Rm|].
+  pose proof (real_after_removal _ _ _ _ Hr Rm) as Hr1.
+  destruct (put_file f1 (p ++ [c]) (e_content e)) as [f2|x] eqn:Pf; [|inversion H; left; auto].
+  right. exists f2. apply put_file_changes in Pf. destruct Pf as (q & Rq & Hc & Hnd & Gq).
+  apply res_nofollow_lex in Rq; [|assumption|assumption]. subst q.
+  split; [exact Hc|]. split; [exact Hnd|]. split; [rewrite Gq; discriminate|].
+  assert (Hr2 : real f2 p).
+  { eapply real_from_changes; [exact Hc| |exact Hr1]. cbn [app]. apply under_snoc_false. }
+  replace f' with (fst (update_meta f2 (p ++ [c]) (e_mode e) (e_mtime e))) by (rewrite H; reflexivity).
+  apply update_meta_ok; try assumption.
+  intros i tg Hi Hk. rewrite Gq in Hi. inversion Hi; subst i. discriminate.
+Qed.
+
+Lemma extract_symlink_trace : forall f p c e f' er, real f p -> normal c ->
+  extract_symlink f (p ++ [c]) e = (f', er) -> trace (p ++ [c]) f f' er.
+Proof.
+  intros f p c e f' er Hr Hn H. unfold extract_symlink in H.
+  destruct (remove_if_exists f (p ++ [c])) as [f1|x] eqn:Rm; [|inversion H; left; auto].
+  apply remove_if_exists_ok in Rm; [|assumption|assumption]. right. exists f1. split; [exact Rm|].
+  pose proof (real_after_removal _ _ _ _ Hr Rm) as Hr1.
+  destruct (symlink f1 (e_link e) (p ++ [c])) as [f2|x] eqn:Sl; [|inversion H; left; auto].
+  right. exists f2. apply symlink_changes in Sl. destruct Sl as (q & Rq & Hc & Gn & Gq).
+  apply res_nofollow_lex in Rq; [|assumption|assumption]. subst q.
+  split; [exact Hc|]. split; [rewrite Gn; reflexivity|]. split; [exact Gq|].
+  assert (Hr2 : real f2 p).
+  { eapply real_from_changes; [exact Hc| |exact Hr1]. cbn [app]. apply under_snoc_false. }
+  destruct (e_mtime e) as [tm|]; [|inversion H; apply meta_only_refl].
+  destruct (utimens f2 (p ++ [c]) tm) as [f3|x] eqn:Ut; inversion H; subst; [|apply meta_only_refl].
+  apply utimens_changes in Ut. destruct Ut as (q & Rq & Hm & _).
+  apply res_nofollow_lex in Rq; [|assumption|assumption]. subst q. exact Hm.
+Qed.
+
+Section Main.
+  Variable t : path.
+  Hypothesis t_ne : t <> [].
+  Variable f0 : fs.
+
+  Lemma trace_agree : forall L f f' er, under t L = true -> trace L f f' er -> agree t f f'.
+  Proof.
+    intros L f f' er HL [[E _]|(f1 & H1 & H2)]; [subst; apply agree_refl|].
+    assert (A1 : agree t f f1).
+    { destruct H1 as [E|[Hc _]]; [subst; apply agree_refl|]. eapply changes_agree; eassumption. }
+    destruct H2 as [[E _]|(f2 & Hc & _ & _ & Hm)]; [subst; exact A1|].
+    eapply agree_trans; [exact A1|]. eapply agree_trans.
+    - eapply changes_agree; eassumption.
+    - eapply meta_agree; eassumption.
+  Qed.
+
+  Definition except (q : path) (x : path) : Prop := x <> q.
+
+  Lemma inv_create : forall f rds q g,
+    inv t f0 (except q) f rds -> under t q = true -> (List.length t < List.length q)%nat ->
+    changes_at q f g -> is_dir (get f q) = false -> get g q <> None ->
+    inv t f0 always g rds.
+  Proof.
+    intros f rds q g (A & R & D) Hq Hlen Hc Hnd Hg. split; [|split].
+    - eapply agree_trans; [exact A|]. eapply changes_agree; eassumption.
+    - eapply real_from_changes; [exact Hc| |exact R]. cbn [app]. apply under_longer. exact Hlen.
+    - eapply Forall_impl; [|exact D]. intros d (p & c & E & U & N & Rp & X).
+      exists p, c. split; [exact E|]. split; [exact U|]. split; [exact N|]. split.
+      + eapply real_from_changes; [exact Hc| |exact Rp]. cbn [app].
+        destruct (under q p) eqn:Up; [|reflexivity].
+        pose proof (prefix_real_dir _ _ _ Rp Up) as Hd. congruence.
+      + intros _. destruct (list_eq_dec (list_eq_dec Z.eq_dec) (p ++ [c]) q) as [Eq|Ne].
+        * rewrite Eq. exact Hg.
+        * eapply exists_changes; [exact Hc|exact Ne|]. apply X. exact Ne.
+  Qed.
+
+  Lemma inv_remove : forall f rds q g,
+    inv t f0 always f rds -> under t q = true -> (List.length t < List.length q)%nat ->
+    changes_at q f g -> (is_dir (get f q) = true -> has_children f q = false) ->
+    inv t f0 (except q) g rds.
+  Proof.
+    intros f rds q g (A & R & D) Hq Hlen Hc Hch. split; [|split].
+    - eapply agree_trans; [exact A|]. eapply changes_agree; eassumption.
+    - eapply real_from_changes; [exact Hc| |exact R]. cbn [app]. apply under_longer. exact Hlen.
+    - eapply Forall_impl; [|exact D]. intros d (p & c & E & U & N & Rp & X).
+      exists p, c. split; [exact E|]. split; [exact U|]. split; [exact N|]. split.
+      + eapply real_from_changes; [exact Hc| |exact Rp]. cbn [app].
+        destruct (under q p) eqn:Up; [|reflexivity]. exfalso.
+        pose proof (prefix_real_dir _ _ _ Rp Up) as Hd. specialize (Hch Hd).
+        apply under_spec in Up. destruct Up as [s Hs].
+        assert (Hex : exists c', get f (q ++ [c']) <> None).
+        { destruct s as [|e s'].
+          - rewrite app_nil_r in Hs. subst p. exists c. apply X. exact I.
+          - exists e. assert (Hu : under (q ++ [e]) p = true).
+            { apply under_spec. exists s'. rewrite Hs, <- app_assoc. reflexivity. }
+            pose proof (prefix_real_dir _ _ _ Rp Hu) as Hd'. intro G. rewrite G in Hd'. discriminate. }
+        destruct Hex as [c' Hc']. apply has_children_intro in Hc'. congruence.
+      + intro Hx. eapply exists_changes; [exact Hc|exact Hx|]. apply X. exact I.
+  Qed.
+
+  Lemma trace_inv : forall L f f' er rds,
+    under t L = true -> (List.length t < List.length L)%nat -> trace L f f' er ->
+    inv t f0 always f rds ->
+    inv t f0 never f' rds /\ (er = false -> inv t f0 always f' rds).
+  Proof.
+    intros L f f' er rds HL Hlen Htr Hi.
+    assert (W : forall g, inv t f0 always g rds -> inv t f0 never g rds).
+    { intros g Hg. eapply inv_weaken; [|exact Hg]. intros x []. }
+    destruct Htr as [[E Eer]|(f1 & H1 & H2)]; [subst; split; [apply W; exact Hi|discriminate]|].
+    assert (I1 : inv t f0 (except L) f1 rds).
+    { destruct H1 as [E|(Hc & _ & Hch)].
+      - subst. eapply inv_weaken; [|exact Hi]. intros x _. exact I.
+      - eapply inv_remove; eassumption. }
+    destruct H2 as [[E Eer]|(f2 & Hc & Hnd & Hg & Hm)].
+    - subst. split; [|discriminate]. eapply inv_weaken; [|exact I1]. intros x [].
+    - pose proof (inv_create _ _ _ _ I1 HL Hlen Hc Hnd Hg) as I2.
+      pose proof (inv_meta t t_ne f0 always f2 rds L f' I2 HL Hm) as I3.
+      split; [apply W; exact I3|intros _; exact I3].
+  Qed.
+
+  Lemma under_target : forall s c, under t ((t ++ s) ++ [c]) = true.
+  Proof. intros. rewrite <- app_assoc. apply under_app. Qed.
+  Lemma longer_target : forall s (c : comp), (List.length t < List.length ((t ++ s) ++ [c]))%nat.
+  Proof. intros. rewrite !app_length. cbn. lia. Qed.
+
+  (** deferUpdate *)
+  Lemma defer_update_ok : forall f rds p c e f' rds' er,
+    inv t f0 always f rds -> under t (p ++ [c]) = true -> normal c -> real f p ->
+    get f (p ++ [c]) <> None ->
+    defer_update false f rds (p ++ [c]) e = (f', rds', er) -> inv t f0 always f' rds'.
+  Proof.
+    intros f rds p c e f' rds' er Hi HL Hn Hr Hg H. unfold defer_update in H.
+    assert (Knew : forall g rs, inv t f0 always g rs -> real g p -> get g (p ++ [c]) <> None ->
+                   inv t f0 always g ({| d_path := p ++ [c]; d_mode := e_mode e; d_mtime := e_mtime e |} :: rs)).
+    { intros g rs (A & R & D) Hrg Hgg. split; [exact A|]. split; [exact R|]. constructor; [|exact D].
+      exists p, c. cbn [d_path]. auto. }
+    destruct (e_mode e =? 0) eqn:Em; destruct (e_mtime e) as [tm|] eqn:Et;
+      try (inversion H; subst; exact Hi).
+    all: destruct rds as [|m older]; [inversion H; subst; apply Knew; assumption|].
+    all: match type of H with (if ?b then _ else _) = _ => destruct b end;
+         [|inversion H; subst; apply Knew; assumption].
+    all: pose proof Hi as (A & R & D); inversion D as [|? ? Hm Hold]; subst;
+         pose proof (apply_deferred_ok t f always m Hm) as Hmeta;
+         pose proof (inv_meta t t_ne f0 always f (m :: older) _ _ Hi (dpath_under t _ _ _ Hm) Hmeta) as Hi';
+         destruct (apply_deferred false f m) as [g erm]; cbn [fst] in *; inversion H; subst;
+         destruct er; [exact Hi'|];
+         apply Knew; [destruct Hi' as (A' & R' & D'); split; [exact A'|]; split; [exact R'|]; inversion D'; assumption
+                     |eapply real_from_meta; eassumption|eapply exists_meta; eassumption].
+  Qed.
+End Main.
+
+Section Main2.
+  Variable t : path.
+  Hypothesis t_ne : t <> [].
+  Variable f0 : fs.
+
+  Lemma inv_never : forall g rds, inv t f0 always g rds -> inv t f0 never g rds.
+  Proof. intros g rds H. eapply inv_weaken; [|exact H]. intros x []. Qed.
+
+  (** one entry of the loop *)
+  Lemma step_ok : forall root f rds e f' rds' er,
+    inv t f0 always f rds -> step false t root f rds e = (f', rds', er) ->
+    inv t f0 never f' rds' /\ (er = false -> inv t f0 always f' rds').
+  Proof.
+    intros root f rds e f' rds' er Hi H. unfold step in H.
+    assert (Same : (f, rds, true) = (f', rds', er) -> inv t f0 never f' rds' /\ (er = false -> inv t f0 always f' rds')).
+    { intro E. inversion E; subst. split; [apply inv_never; exact Hi|discriminate]. }
+    destruct (negb (valid_tar_path (e_name e))) eqn:V; [apply Same; exact H|].
+    apply negb_false_iff in V.
+    destruct (relative_to root (e_name e)) as [rel|] eqn:Rel; [|apply Same; exact H].
+    destruct (output_path f t (split_slash rel)) as [L|] eqn:OP; [|apply Same; exact H].
+    pose proof Hi as (A & R & D).
+    apply output_path_ok in OP; [|exact R|eapply rel_elems_normal; eassumption|apply split_slash_nonempty].
+    destruct OP as (s & c & EL & Hn & Hrs). subst L.
+    pose proof (under_target t s c) as HU. pose proof (longer_target t s c) as HLen.
+    destruct (e_type e).
+    - (* directory *)
+      destruct (extract_dir f ((t ++ s) ++ [c])) as [f1|x] eqn:Ed; [|apply Same; exact H].
+      apply extract_dir_ok in Ed; [|assumption|assumption]. destruct Ed as (Hcase & Hr1 & Hd1).
+      assert (I1 : inv t f0 always f1 rds).
+      { destruct Hcase as [E|[Hc Gn]]; [subst; exact Hi|].
+        eapply (inv_create t t_ne f0 f rds ((t ++ s) ++ [c]) f1); try eassumption.
+        - eapply inv_weaken; [|exact Hi]. intros x _. exact I.
+        - rewrite Gn. reflexivity.
+        - intro G. rewrite G in Hd1. discriminate. }
+      assert (Hg1 : get f1 ((t ++ s) ++ [c]) <> None) by (intro G; rewrite G in Hd1; discriminate).
+      pose proof (defer_update_ok t t_ne f0 f1 rds (t ++ s) c e f' rds' er I1 HU Hn Hr1 Hg1 H) as I2.
+      split; [apply inv_never; exact I2|intros _; exact I2].
+    - (* regular file *)
+      destruct (extract_file f ((t ++ s) ++ [c]) e) as [f1 er1] eqn:Ef. inversion H; subst.
+      apply extract_file_trace in Ef; [|assumption|assumption].
+      eapply trace_inv; eassumption.
+    - (* symlink *)
+      destruct (extract_symlink f ((t ++ s) ++ [c]) e) as [f1 er1] eqn:Es. inversion H; subst.
+      apply extract_symlink_trace in Es; [|assumption|assumption].
+      eapply trace_inv; eassumption.
+    - apply Same; exact H.
+  Qed.
+
+  Lemma steps_ok : forall root es f rds f' rds' er,
+    inv t f0 always f rds -> steps false t root f rds es = (f', rds', er) -> inv t f0 never f' rds'.
+  Proof.
+    intros root es. induction es as [|e es IH]; intros f rds f' rds' er Hi H.
+    - cbn in H. inversion H; subst. apply inv_never. exact Hi.
+    - cbn [steps] in H. destruct (step false t root f rds e) as [[f1 rds1] er1] eqn:St.
+      apply step_ok in St; [|exact Hi]. destruct St as [Hn Ha].
+      destruct er1.
+      + inversion H; subst. exact Hn.
+      + eapply IH; [apply Ha; reflexivity|exact H].
+  Qed.
+
+  (** the target's own path: its directory is reached through real directories *)
+  Variable p0 : path.
+  Variable c0 : comp.
+  Hypothesis t_split : t = p0 ++ [c0].
+  Hypothesis c0_normal : normal c0.
+  Hypothesis p0_real : real f0 p0.
+
+  Lemma under_self : under t (p0 ++ [c0]) = true.
+  Proof. rewrite <- t_split. apply under_refl. Qed.
+
+  Theorem extract_agree : forall es, agree t f0 (fst (extract false f0 t es)).
+  Proof.
+    intros es. unfold extract. destruct es as [|h rest]; [apply agree_refl|].
+    destruct (memb 47 (e_name h) || bad_elem (e_name h)) eqn:RootBad; [apply agree_refl|].
+    apply orb_false_iff in RootBad. destruct RootBad as [_ RootOk]. apply bad_elem_normal in RootOk.
+    destruct (e_type h) eqn:Ty.
+    - (* root directory *)
+      destruct (extract_dir f0 t) as [f1|x] eqn:Ed.
+      + rewrite t_split in Ed. apply extract_dir_ok in Ed; [|assumption|assumption].
+        rewrite <- t_split in Ed. destruct Ed as (Hcase & Hr1 & Hd1).
+        assert (A1 : agree t f0 f1).
+        { destruct Hcase as [E|[Hc _]]; [subst f1; apply agree_refl|].
+          eapply changes_agree; [exact t_ne|apply under_refl|exact Hc]. }
+        assert (I1 : inv t f0 always f1 []).
+        { split; [exact A1|]. split; [|constructor]. rewrite t_split. apply real_snoc; try assumption.
+          rewrite <- t_split. exact Hd1. }
+        assert (Hg1 : get f1 t <> None) by (intro G; rewrite G in Hd1; discriminate).
+        destruct (defer_update false f1 [] t h) as [[f2 rds] er] eqn:Du.
+        assert (I2 : inv t f0 always f2 rds).
+        { rewrite t_split in Du, Hg1.
+          eapply (defer_update_ok t t_ne f0 f1 [] p0 c0); try eassumption. apply under_self. }
+        destruct er.
+        * cbn [fst]. pose proof (do_updates_ok t t_ne f0 rds never f2 (inv_never _ _ I2)) as (A & _). exact A.
+        * destruct (steps false t (e_name h) f2 rds rest) as [[f3 rds3] er3] eqn:Ss.
+          apply steps_ok in Ss; [|exact I2]. cbn [fst].
+          pose proof (do_updates_ok t t_ne f0 rds3 never f3 Ss) as (A & _). exact A.
+      + cbn [fst]. unfold extract_dir_state.
+        destruct (mkdir_all f0 t 493) as [f1|y] eqn:Mk; [|apply agree_refl].
+        rewrite t_split in Mk. apply mkdir_all_ok in Mk; [|assumption|assumption]. rewrite <- t_split in Mk.
+        destruct Mk as [E|[Hc _]]; [subst f1; apply agree_refl|].
+        eapply changes_agree; [exact t_ne|apply under_refl|exact Hc].
+    - (* root file *)
+      destruct (lstat f0 t) as [i|x] eqn:Ls.
+      + rewrite t_split in Ls. apply lstat_lex in Ls; [|assumption|assumption]. rewrite <- t_split in Ls.
+        destruct (i_kind i) eqn:K.
+        * (* into the existing directory *)
+          cbn [andb]. destruct (negb (valid_component (e_name h))); [apply agree_refl|].
+          assert (Rt : real f0 t).
+          { rewrite t_split. apply real_snoc; try assumption. rewrite <- t_split, Ls.
+            destruct i as [k m mt]. cbn in K. subst k. reflexivity. }
+          destruct (extract_file f0 (t ++ [e_name h]) h) as [f1 er] eqn:Ef.
+          apply extract_file_trace in Ef; [|assumption|assumption].
+          apply (trace_agree t t_ne) in Ef; [|apply under_app].
+          destruct er; [exact Ef|]. destruct rest; exact Ef.
+        * cbn [andb]. destruct (extract_file f0 t h) as [f1 er] eqn:Ef. rewrite t_split in Ef.
+          apply extract_file_trace in Ef; [|assumption|assumption].
+          apply (trace_agree t t_ne) in Ef; [|apply under_self].
+          destruct er; [exact Ef|]. destruct rest; exact Ef.
+        * cbn [andb]. destruct (extract_file f0 t h) as [f1 er] eqn:Ef. rewrite t_split in Ef.
+          apply extract_file_trace in Ef; [|assumption|assumption].
+          apply (trace_agree t t_ne) in Ef; [|apply under_self].
+          destruct er; [exact Ef|]. destruct rest; exact Ef.
+      + destruct x; try apply agree_refl.
+        cbn [andb]. destruct (extract_file f0 t h) as [f1 er] eqn:Ef. rewrite t_split in Ef.
+        apply extract_file_trace in Ef; [|assumption|assumption].
+        apply (trace_agree t t_ne) in Ef; [|apply under_self].
+        destruct er; [exact Ef|]. destruct rest; exact Ef.
+    - (* root symlink *)
+      destruct (lstat f0 t) as [i|x] eqn:Ls.
+      + rewrite t_split in Ls. apply lstat_lex in Ls; [|assumption|assumption]. rewrite <- t_split in Ls.
+        destruct (i_kind i) eqn:K.
+        * cbn [andb]. destruct (negb (valid_component (e_name h))); [apply agree_refl|].
+          assert (Rt : real f0 t).
+          { rewrite t_split. apply real_snoc; try assumption. rewrite <- t_split, Ls.
+            destruct i as [k m mt]. cbn in K. subst k. reflexivity. }
+          destruct (extract_symlink f0 (t ++ [e_name h]) h) as [f1 er] eqn:Ef.
+          apply extract_symlink_trace in Ef; [|assumption|assumption].
+          apply (trace_agree t t_ne) in Ef; [|apply under_app].
+          destruct er; [exact Ef|]. destruct rest; exact Ef.
+        * cbn [andb]. destruct (extract_symlink f0 t h) as [f1 er] eqn:Ef. rewrite t_split in Ef.
+          apply extract_symlink_trace in Ef; [|assumption|assumption].
+          apply (trace_agree t t_ne) in Ef; [|apply under_self].
+          destruct er; [exact Ef|]. destruct rest; exact Ef.
+        * cbn [andb]. destruct (extract_symlink f0 t h) as [f1 er] eqn:Ef. rewrite t_split in Ef.
+          apply extract_symlink_trace in Ef; [|assumption|assumption].
+          apply (trace_agree t t_ne) in Ef; [|apply under_self].
+          destruct er; [exact Ef|]. destruct rest; exact Ef.
+      + destruct x; try apply agree_refl.
+        cbn [andb]. destruct (extract_symlink f0 t h) as [f1 er] eqn:Ef. rewrite t_split in Ef.
+        apply extract_symlink_trace in Ef; [|assumption|assumption].
+        apply (trace_agree t t_ne) in Ef; [|apply under_self].
+        destruct er; [exact Ef|]. destruct rest; exact Ef.
+    - apply agree_refl.
+  Qed.
+End Main2.
+
+(** ---------- from agreement to the executable check ---------- *)
+Lemma kind_eqb_refl : forall k, kind_eqb k k = true.
+Proof. intros [|c|s]; cbn; [reflexivity|apply Z.eqb_refl|apply bytes_eqb_refl]. Qed.
+
+Lemma oinode_eqb_refl : forall o, oinode_eqb o o = true.
+Proof.
+  intros [[k m mt]|]; cbn; [|reflexivity]. unfold inode_eqb. cbn.
+  rewrite kind_eqb_refl, Z.eqb_refl. destruct mt; cbn; [apply Z.eqb_refl|reflexivity].
+Qed.
+
+Lemma same_km_bool : forall a b, same_km a b -> same_kind_mode a b = true.
+Proof.
+  intros [[k m mt]|] [[k' m' mt']|] H; cbn in *; try contradiction; [|reflexivity].
+  destruct H as [H1 H2]. subst. rewrite kind_eqb_refl, Z.eqb_refl. reflexivity.
+Qed.
+
+Lemma agree_confined : forall t f g, agree t f g -> confined t f g = true.
+Proof.
+  intros t f g [A1 A2]. unfold confined, same_outside. apply forallb_forall. intros e _. cbn zeta.
+  destruct (under t (fst e)) eqn:U; [reflexivity|]. cbn [orb].
+  destruct (path_eqb (fst e) (parent t)) eqn:P.
+  - apply path_eqb_eq in P. rewrite P. apply same_km_bool. exact A2.
+  - rewrite (A1 (fst e) U); [apply oinode_eqb_refl|].
+    intro E. rewrite E, path_eqb_refl in P. discriminate.
+Qed.
+
+(** Extraction (with the repaired deferred update) of ANY entry list into ANY file
+    system never changes an object that is not at or below the target [t], provided
+    the directory that is to hold the target is reached through real directories
+    (no symbolic link in the lexical path of the target's parent) and the target's
+    own name is an ordinary component. *)
+Theorem extract_confined : forall f0 p0 c0 es,
+  normal c0 -> real f0 p0 ->
+  confined (p0 ++ [c0]) f0 (fst (extract false f0 (p0 ++ [c0]) es)) = true.
+Proof.
+  intros f0 p0 c0 es Hn Hr. apply agree_confined.
+  apply (extract_agree (p0 ++ [c0]) ltac:(destruct p0; discriminate) f0 p0 c0 eq_refl Hn Hr).
+Qed.
+
+(** the same, spelled out: every path that is not at or below the target and is not
+    the directory holding it has exactly the inode it had; that directory keeps its
+    kind and mode *)
+Theorem extract_outside_unchanged : forall f0 p0 c0 es q,
+  normal c0 -> real f0 p0 -> under (p0 ++ [c0]) q = false ->
+  (q <> p0 -> get (fst (extract false f0 (p0 ++ [c0]) es)) q = get f0 q) /\
+  (q = p0 -> same_km (get f0 q) (get (fst (extract false f0 (p0 ++ [c0]) es)) q)).
+Proof.
+  intros f0 p0 c0 es q Hn Hr Hu.
+  destruct (extract_agree (p0 ++ [c0]) ltac:(destruct p0; discriminate) f0 p0 c0 eq_refl Hn Hr es) as [A1 A2].
+  rewrite parent_snoc in *. split.
+  - intro Hq. apply A1; assumption.
+  - intro Hq. subst q. exact A2.
 Qed.
